@@ -2,6 +2,7 @@ package rules
 
 import (
 	"fmt"
+	"go/constant"
 	"go/types"
 	"sort"
 
@@ -21,11 +22,13 @@ func runC02(r *engine.Run) {
 	r.Rule("AGREE-split", "a leaf's (Prefix, Path) pair splits one key: wherever a leaf is created or re-homed, Prefix = concat(B, S[:k]) goes with Path = S[k:] of the same slice S and the same split point k, with B the operation's prefix argument (or the existing leaf's own Prefix with S its own Path); a leaf that replaces the current node gets exactly the operation's prefix. The prefix is part of the leaf's hash, so a wrong prefix makes the root depend on history")
 	r.Rule("DOM-ext-nonempty", "see C01: an extension node with an empty path is never constructed (also a canonical-form condition)")
 	r.Rule("DEP-extchild", "every key installed as the child of an extension node (NewExtensionNode / insertExtension argument, store to NodeKey) is provably the key of a branch: returned by insertNode for a *FullNode, the child key of an existing extension, the result of insert started at an extension's child (with: the *FullNode arms of insertAtNode/insertAfterPathTraversal return insertNode of a *FullNode), or the key of a node type-tested to be a *FullNode on every path to the site. An extension over an extension or a leaf is a second encoding of the same content")
+	r.Rule("AGREE-mergepath", "see C01: a node that moves up when delete removes its parent gets exactly the path elements the parent consumed in front of its own path (otherwise the same content has another shape and root than the trie built by inserts alone)")
 	r.NotDec = append(r.NotDec, "equality with an independent implementation for every content", "full history independence (canonical restructuring is value-level)", "collision resistance of the hash")
 	agreeHash(r, "AGREE-hash")
 	orderStamp(r, "ORDER-stamp")
 	depCanon(r)
 	agreeSplit(r)
+	agreeMergePath(r, "AGREE-mergepath")
 	domExtNonEmpty(r, "DOM-ext-nonempty")
 	depExtChild(r, "DEP-extchild")
 }
@@ -336,6 +339,39 @@ func parsePrefix(v ssa.Value) prefixForm {
 		}
 		rest = stripCT(rest)
 		if sl, ok := rest.(*ssa.Slice); ok && sl.Low == nil {
+			// explicit elements concat(B, S[0], S[1], ...): the same as S[:n]
+			if al, isAl := sl.X.(*ssa.Alloc); isAl && sl.High == nil {
+				elems := map[int64]ssa.Value{}
+				for _, ref := range engine.Referrers(al) {
+					if ia, ok := ref.(*ssa.IndexAddr); ok {
+						i, isC := intConst(ia.Index)
+						for _, r2 := range engine.Referrers(ia) {
+							if st, ok := r2.(*ssa.Store); ok && st.Addr == ssa.Value(ia) && isC {
+								elems[i] = st.Val
+							}
+						}
+					}
+				}
+				var src ssa.Value
+				good := len(elems) > 0
+				for i := int64(0); i < int64(len(elems)); i++ {
+					e, ok := elems[i]
+					if !ok {
+						good = false
+						break
+					}
+					arr, idx, okL := loadOfIndex(e)
+					k, isC := intConst(idx)
+					if !okL || !isC || k != i || (src != nil && !sameBytes(stripCT(arr), src)) {
+						good = false
+						break
+					}
+					src = stripCT(arr)
+				}
+				if good {
+					return prefixForm{base: b, s: src, k: ssa.NewConst(constant.MakeInt64(int64(len(elems))), types.Typ[types.Int]), ok: true}
+				}
+			}
 			return prefixForm{base: b, s: stripCT(sl.X), k: sl.High, ok: true}
 		}
 		return prefixForm{base: b, s: rest, k: nil, ok: true}
